@@ -486,7 +486,8 @@ func run(ctx *common.Ctx) error {
 	for mi := 0; mi < nMsgs+len(bigSizes); mi++ {
 		ascii := mi%2 == 0
 		big := mi >= nMsgs
-		g := &mimegen.Gen{Rng: rng, MaxBody: 80, ASCII: ascii, NoTopMsg: true, NoMsgInMsg: true, MsgChainLeaf: true, Bare: true, NoClose: true, EmptyFields: true}
+		prefix := rng.Chance(0.35)
+		g := &mimegen.Gen{Rng: rng, MaxBody: 80, ASCII: ascii, NoTopMsg: true, NoMsgInMsg: true, MsgChainLeaf: true, Bare: true, NoClose: !prefix, Prefix: prefix, EmptyFields: true}
 		mix := rng.Chance(0.4)
 		var tree *mimegen.Node
 		if big {
